@@ -128,6 +128,9 @@ SOME, NONE_, OK, ERR = ("v", "Some"), ("v", "None"), ("v", "Ok"), ("v", "Err")
 CONT, BRK = ("v", "Continue"), ("v", "Break")
 
 IDENT = [((), 0, ())]
+_CONSTRUCTORS = {"std::vec::Vec::new", "std::vec::Vec::with_capacity", "std::collections::HashMap::new", "std::collections::HashMap::with_capacity",
+                 "std::collections::BTreeMap::new", "std::collections::HashSet::new", "std::collections::BTreeSet::new",
+                 "std::collections::VecDeque::new", "std::default::Default::default"}
 
 SUMMARIES = {
     # identity-like
@@ -591,13 +594,29 @@ class Body:
                             known = val
             if "move" in t["discr"] and dp is not None and not dp["p"]:
                 st.pop(dp["l"], None)
+            learn = None
+            if dp is not None and not dp["p"] and dp["l"] in discr_of:
+                src, variants = discr_of[dp["l"]]
+                if self._tracked(src) and src not in self._tainted and src not in st:
+                    learn = (src, variants)
             for j, (tb, lab) in enumerate(self.succ[b]):
                 if known is not None:
                     if lab[0] == "sw" and lab[1] != known:
                         continue
                     if lab[0] == "other" and any(v == known for v, _ in t["arms"]):
                         continue
-                outs.append((j, tb, dict(st)))
+                nst = dict(st)
+                if learn is not None:
+                    # the branch taken tells which variant the matched value holds
+                    src, variants = learn
+                    if lab[0] == "sw":
+                        nm = [n_ for (v, n_) in variants if v == lab[1]]
+                    else:
+                        taken = {v for v, _ in t["arms"]}
+                        nm = [n_ for (v, n_) in variants if v not in taken]
+                    if len(nm) == 1:
+                        nst[src] = nm[0]
+                outs.append((j, tb, nst))
             return outs
         for j, (tb, lab) in enumerate(self.succ[b]):
             outs.append((j, tb, dict(st)))
@@ -754,20 +773,21 @@ class Body:
                     out.append((b, j))
         return out
 
-    def _is_err_return_path(self, src, start, loop, j=None):
-        ret = self.blocks[src].get("ret_local", 0)
-        inst = self.blocks[src].get("inst", "")
+    def _is_err_return_path(self, src, start, loop, j=None, root=False, removed_edges=()):
+        """root=True: judge against the return place of the region's root function, whatever inlined instance src is in."""
+        ret = 0 if root else self.blocks[src].get("ret_local", 0)
+        inst = None if root else self.blocks[src].get("inst", "")
         seen = set()
         xg = self._x if (self.ps and j is not None) else None
         if xg is not None:
             # path-sensitive: walk the exploded graph from the nodes entered over this edge
             order, adj = xg["order"], xg["adj"]
             stack = [k for i, (b0, _st) in enumerate(order) if b0 == src for (k, e) in adj[i] if e == (src, j)]
-            succs = lambda n: [k for (k, _e) in adj[n]]
+            succs = lambda n: [k for (k, e) in adj[n] if e not in removed_edges]
             block_of = lambda n: order[n][0]
         else:
             stack = [start]
-            succs = lambda n: [nb for (nb, _) in self.succ[n]]
+            succs = lambda n: [nb for jj, (nb, _) in enumerate(self.succ[n]) if (n, jj) not in removed_edges]
             block_of = lambda n: n
         while stack:
             node = stack.pop()
@@ -778,7 +798,7 @@ class Body:
             if b in loop:
                 return False
             blk = self.blocks[b]
-            if blk.get("inst", "") != inst:
+            if inst is not None and blk.get("inst", "") != inst:
                 return False
             assigned = None
             for st in blk["stmts"]:
@@ -794,11 +814,17 @@ class Body:
                     assigned = "Err" if n == "std::ops::FromResidual::from_residual" else "other"
                 elif n == "std::iter::Iterator::next":
                     return False
+            if assigned == "other" and xg is not None:
+                # the value assigned is not syntactically an Err, but on this path it is known to be one (e.g. the Err
+                # carried through Result::map / a move)
+                nxt = succs(node)
+                if nxt and all(dict(xg["order"][k][1]).get(ret) == "Err" for k in nxt):
+                    assigned = "Err"
             if assigned == "Err":
                 continue
             if assigned == "other":
                 return False
-            if t["k"] == "return" or t.get("synthetic") == "return":
+            if t["k"] == "return" or (t.get("synthetic") == "return" and inst is not None):
                 return False
             stack.extend(succs(node))
         return True
@@ -963,11 +989,48 @@ class Body:
                     rest = path[len(dpath):] if len(path) >= len(dpath) else ()
                 else:
                     rest = path
+                # a collection built by a desugared collect()/extend() is transparent (as collect itself is); a hand-written one
+                # only on request (`__content__`), so that container identity stays a usable root
+                if rest[:1] == (ELEM,) and not dpath and callee_name(t) in _CONSTRUCTORS and not (opaque and opaque(t)) and \
+                        (t.get("synthetic") == "desugared-call" or (textra and textra.get("__content__"))):
+                    content = self._container_content(l, rest, opaque, textra, follow_mut, seen, via)
+                    if content is not None:
+                        out += content
+                        continue
                 out += self._trace_call(d.bb, t, rest, opaque, textra, follow_mut, seen, via)
         if follow_mut:
             for (bb, t, ai) in self.mutators.get(l, []):
                 out.append(Leaf("mut", (bb, t, ai), path, via))
         return out
+
+    def _container_content(self, l, path, opaque, textra, follow_mut, seen, via):
+        """Elements of a freshly constructed collection held in local l: what its insert / push / extend calls put in.
+        None when nothing is ever inserted (the caller then reports the constructor call itself)."""
+        out = []
+        found = False
+        sub = path[1:]
+        rec = lambda x, p, v: self.trace(x, p, opaque, textra, follow_mut, seen, v)
+        for (bb, mt, ai) in self.mutators.get(l, []):
+            if ai != 0 or bb not in self.reach:
+                continue
+            n = callee_name(mt) or ""
+            v2 = via + (short(n),)
+            if n in ("std::vec::Vec::push", "std::collections::BTreeSet::insert", "std::collections::HashSet::insert",
+                     "std::collections::VecDeque::push_back") and len(mt["args"]) == 2:
+                found = True
+                out += rec(mt["args"][1], sub, v2)
+            elif n in ("std::collections::BTreeMap::insert", "std::collections::HashMap::insert") and len(mt["args"]) == 3:
+                found = True
+                if sub[:1] == (F0,):
+                    out += rec(mt["args"][1], sub[1:], v2)
+                elif sub[:1] == (F1,):
+                    out += rec(mt["args"][2], sub[1:], v2)
+                elif not sub:
+                    out += rec(mt["args"][1], (), v2) + rec(mt["args"][2], (), v2)
+            elif n in ("std::iter::Extend::extend", "std::vec::Vec::append", "std::vec::Vec::extend_from_slice") and len(mt["args"]) == 2:
+                found = True
+                out += rec(mt["args"][1], (ELEM,) + sub, v2)
+        return out if found else None
 
     def _trace_rv(self, rv, path, d, opaque, textra, follow_mut, seen, via):
         k = rv["k"]
@@ -1327,6 +1390,11 @@ SWAP = {"Lt": "Gt", "Le": "Ge", "Gt": "Lt", "Ge": "Le", "Eq": "Eq", "Ne": "Ne"}
 def as_cmp(fact):
     """A ('bool', node, truth) fact as a normalised comparison (op, a, b) that HOLDS on the edge,
     or None."""
+    if fact[0] == "int":
+        # `match x { 3 => .. }` is `x == 3`
+        return ("Eq", fact[1], {"const": {"int": fact[2], "ty": "int", "repr": str(fact[2])}})
+    if fact[0] == "intnot" and len(fact[2]) == 1:
+        return ("Ne", fact[1], {"const": {"int": fact[2][0], "ty": "int", "repr": str(fact[2][0])}})
     if fact[0] != "bool":
         return None
     node, truth = fact[1], fact[2]
